@@ -82,6 +82,15 @@ func (tt *tcpTransport) ReadRequest() (req *pdu, err error) {
 
 // Writes a response to the socket.
 func (tt *tcpTransport) WriteResponse(res *pdu) (err error) {
+	// give the response a write deadline of its own: the deadline set by
+	// ReadRequest() started running before the request came in and may expire
+	// while the handler runs, which would drop the response to a request that
+	// was received in time
+	err	= tt.socket.SetWriteDeadline(time.Now().Add(tt.timeout))
+	if err != nil {
+		return
+	}
+
 	_, err	= tt.socket.Write(tt.assembleMBAPFrame(tt.lastTxnId, res))
 	if err != nil {
 		return
